@@ -141,6 +141,10 @@ class XPathToken(Token[ta.XPathTokenType]):
             )
         elif symbol in ('-', '+') and len(self) == 1:
             return symbol + self[0].source
+        elif symbol == '(string)' and isinstance(self.value, str):
+            # XPath string literal: the delimiter is escaped by doubling it
+            quote = '"' if "'" in self.value and '"' not in self.value else "'"
+            return quote + self.value.replace(quote, quote * 2) + quote
         return super(XPathToken, self).source
 
     @property
